@@ -27,9 +27,10 @@ def is_generate(t):
     return isinstance(t, tuple) and t[0] == 'call' and t[1] == GENERATE and self_field(t[2][0], 'id_generator')
 
 
-def sym_of(ctx, res, fn, cache={}):
+def sym_of(ctx, res, fn):
     b = ctx.co(fn)
-    key = (id(ctx), fn)
+    cache = ctx.__dict__.setdefault('_sym_cache', {})   # per analysed tree, never shared between trees
+    key = ('lookup', fn)
     if key not in cache:
         s = Sym(b, max_paths=200000)
         s.run()
@@ -611,8 +612,12 @@ def rule_not_early(ctx, res):
         ok = True
         n = 0
         for p in s.complete_paths():
+            def removed_from_outstanding(t):
+                rm = find_calls(t, '::remove')
+                return bool(rm) and self_field(rm[0][2][0], 'active_lookups')
             gated = any((literal(c)[0] == 'variant' and gate_lit(literal(c))) or
-                        (literal(c)[0] == 'bool' and literal(c)[1][0] == 'call' and literal(c)[1][1].endswith('::is_none') and literal(c)[3] is False) for c in p.conds)
+                        (literal(c)[0] == 'bool' and literal(c)[1][0] == 'call' and removed_from_outstanding(literal(c)[1]) and
+                         ((literal(c)[1][1].endswith('::is_none') and literal(c)[3] is False) or (literal(c)[1][1].endswith('::is_some') and literal(c)[3] is True))) for c in p.conds)
             if not gated:
                 continue
             n += 1
